@@ -30,16 +30,25 @@ inductive Ty
 /-- `lambda x: x.startswith("unk__")` -/
 def isUnkName (s : String) : Bool := "unk__".toList.isPrefixOf s.toList
 
-/-- `_strip_dim_symbol_shape`: `None if isinstance(x, str) and pred(x) else x` -/
-def stripDim : Dim → Dim
-  | .sym s => if isUnkName s then .unk else .sym s
+/-- `_strip_dim_symbol_shape` with the predicate of `infer_output_types_onnx`:
+    `None if isinstance(x, str) and x.startswith("unk__") and x not in given else x` - `given` = the
+    dimension names spelled in the input types (the caller's own, whatever they look like) -/
+def stripDim (given : List String) : Dim → Dim
+  | .sym s => if isUnkName s && !given.contains s then .unk else .sym s
   | d => d
 
 /-- `_strip_dim_symbol` -/
-def stripUnk : Ty → Ty
-  | .tensor e sh => .tensor e (sh.map (List.map stripDim))
-  | .seq t => .seq (stripUnk t)
-  | .opt t => .opt (stripUnk t)
+def stripUnk (given : List String) : Ty → Ty
+  | .tensor e sh => .tensor e (sh.map (List.map (stripDim given)))
+  | .seq t => .seq (stripUnk given t)
+  | .opt t => .opt (stripUnk given t)
+
+/-- `_dim_symbols`: the dimension parameter names occurring in a type -/
+def dimNames : Ty → List String
+  | .tensor _ none => []
+  | .tensor _ (some ds) => ds.filterMap (fun d => match d with | .sym s => some s | _ => none)
+  | .seq t => dimNames t
+  | .opt t => dimNames t
 
 /-! ## Signatures and calls -/
 
@@ -249,6 +258,12 @@ def lookupTy (key : String) : List (String × Option Ty) → Option Ty
     | some t' => some t'
     | none => if k = key then t else none
 
+/-- `{name for var in inputs.get_vars().values() for name in _dim_symbols(var.unwrap_type())}` -/
+def Call.givenNames (c : Call) : List String :=
+  c.inPairs.flatMap (fun p => match (c.info p.2).ty with
+    | some t => dimNames t
+    | none => [])
+
 def anyUntyped (c : Call) : Bool := c.inPairs.any (fun p => (c.info p.2).ty.isNone)
 
 inductive Err
@@ -262,7 +277,7 @@ def construct (Infer : InferFn) (c : Call) : Except Err (List (String × Option 
   else if anyUntyped c then .ok (c.outKeys.map (fun k => (k, none)))
   else match Infer (singleton c) with
     | none => .error .inference
-    | some res => .ok (c.outKeys.map (fun k => (k, (lookupTy k res).map stripUnk)))
+    | some res => .ok (c.outKeys.map (fun k => (k, (lookupTy k res).map (stripUnk c.givenNames))))
 
 /-- An operator whose inference spox *supplements* (Compress, Loop): the override first runs the
     standard routine (`self.infer_output_types_onnx()` / `super().infer_output_types()`), whose
